@@ -88,6 +88,7 @@ class Interp(object):
                max_depth=6, strict=True):
     self.prog = prog
     self.strict = strict
+    self.follow_methods = True
     self.enum_names = set(enum_names)
     self.max_depth = max_depth
     self.trace = []
@@ -219,6 +220,19 @@ class Interp(object):
       bound, _, _ = call_args(c, r.all_params)
       cenv = {}
       for p in r.all_params:
+        if p in bound:
+          cenv[p] = self.val(fn, bound[p], env)
+        elif p in r.defaults:
+          cenv[p] = self.val(r, r.defaults[p], {})
+      return self.run(r, cenv)
+    if isinstance(r, FunctionInfo) and r.cls is not None and \
+        self.follow_methods and isinstance(c.func, ast.Attribute) and \
+        dotted(c.func.value) == 'self' and r.cls is getattr(fn, 'cls', None):
+      params = [p for p in r.all_params if p != 'self']
+      bound, _, _ = call_args(c, params)
+      cenv = {k: v for k, v in env.items() if k == 'self' or
+              k.startswith('self.')}
+      for p in params:
         if p in bound:
           cenv[p] = self.val(fn, bound[p], env)
         elif p in r.defaults:
